@@ -51,20 +51,46 @@ Accept(e, pq) ==
     LET c == Checks(e, pq)
     IN \A f \in DOMAIN c : c[f]
 
+(* Per-index events at huge list sizes ("ShuffleIdx"): PermuteIndex / UnpermuteIndex of a few indices of a list of   *)
+(* up to 2^31 - 1 entries; hw holds <<<<round, window>>, pre-image, digest>> for the windows those indices need.     *)
+IdxLayoutOK(e) ==
+    /\ Len(e.seed) = 32 /\ Len(e.hp) = e.rounds
+    /\ \A r \in 1 .. e.rounds : e.hp[r][1] = PivotPre(e.seed, r - 1) /\ Len(e.hp[r][2]) = 32
+    /\ \A q \in 1 .. Len(e.hw) : e.hw[q][2] = SourcePre(e.seed, e.hw[q][1][1], e.hw[q][1][2]) /\ Len(e.hw[q][3]) = 32
+
+IdxChecks(e) ==
+    LET n == e.n
+        R == e.rounds
+        piv == TLCEval([r \in 0 .. R - 1 |-> PivotOfBig(e.hp[r + 1][2], n)])
+        src(r, w) == e.hw[CHOOSE q \in 1 .. Len(e.hw) : e.hw[q][1] = << r, w >>][3]
+        bit == [r \in 0 .. R - 1 |-> [pos \in 0 .. n - 1 |-> BitOf(src(r, pos \div 256), pos)]]
+    IN [panic  |-> ~("panic" \in DOMAIN e),
+        perm   |-> /\ Len(e.perm) = Len(e.indices)
+                   /\ \A k \in 1 .. Len(e.indices) : e.perm[k] = PermIdx(e.indices[k], n, R, piv, bit),
+        unperm |-> /\ Len(e.unperm) = Len(e.indices)
+                   /\ \A k \in 1 .. Len(e.indices) : e.unperm[k] = UnpermIdx(e.indices[k], n, R, piv, bit),
+        back   |-> e.back = e.indices]
+
 Init == l = 1 /\ pv = << >> /\ ps = << >>
 
 Next ==
     /\ l <= Len(Trace)
-    /\ LET e == Trace[l]
-       IN /\ Assert(LayoutOK(e), << "harness oracle table has the wrong layout at line", l >>)
-          \* (an empty list has no index to shuffle and hence no pivot: index_count = 0)
-          /\ pv' = IF e.n = 0 THEN << >>
-                   ELSE TLCEval([r \in 0 .. e.rounds - 1 |-> PivotOf(e.hp[r + 1][2], e.n)])
-          /\ ps' = TLCEval(PermSeq(e.n, e.rounds, pv', EvBit(e)))
-          /\ IF Diagnose
-             THEN PrintT(<< "DIAG", l, ToJson(Checks(e, ps')) >>)
-             ELSE Accept(e, ps')
     /\ l' = l + 1
+    /\ LET e == Trace[l]
+       IN IF e.ev = "ShuffleIdx"
+          THEN /\ pv' = << >> /\ ps' = << >>
+               /\ Assert(IdxLayoutOK(e), << "harness oracle table has the wrong layout at line", l >>)
+               /\ IF Diagnose
+                  THEN PrintT(<< "DIAG", l, ToJson(IdxChecks(e)) >>)
+                  ELSE \A f \in DOMAIN IdxChecks(e) : IdxChecks(e)[f]
+          ELSE /\ Assert(LayoutOK(e), << "harness oracle table has the wrong layout at line", l >>)
+               \* (an empty list has no index to shuffle and hence no pivot: index_count = 0)
+               /\ pv' = IF e.n = 0 THEN << >>
+                        ELSE TLCEval([r \in 0 .. e.rounds - 1 |-> PivotOf(e.hp[r + 1][2], e.n)])
+               /\ ps' = TLCEval(PermSeq(e.n, e.rounds, pv', EvBit(e)))
+               /\ IF Diagnose
+                  THEN PrintT(<< "DIAG", l, ToJson(Checks(e, ps')) >>)
+                  ELSE Accept(e, ps')
 
 \* every line was accepted  <=>  the behaviour has Len(Trace) + 1 states
 AllAccepted == TLCGet("stats").diameter = Len(Trace) + 1
